@@ -164,6 +164,14 @@ class Rig:
                                      decoy="192.0.2.1"))
         return p
 
+    def write(self, text):
+        """a known_hosts file with exactly this content"""
+        self._n += 1
+        p = os.path.join(self.tmp, f"kh{self._n}")
+        with open(p, "w") as f:
+            f.write(text)
+        return p
+
     def next_user(self):
         self._n += 1
         return f"u{self._n}"
